@@ -709,28 +709,93 @@ func ruleV5(c *an.Ctx) {
 	})
 	c.Floor("V5", "fileArgs updates in attachToFileParents", nArgs, 1)
 	c.Floor("V5", "filePostNodes updates in attachToFileParents", nPost, 1)
-	// (c) retains insert the nil consumer
+	// (c) retains insert the nil consumer - for every fork, on every path, whether or not the argument already
+	// has consumers (a retained output that a downstream call also consumes must survive that consumer)
 	for _, name := range []string{"setupRetains", "(*Pipestance).buildForks"} {
 		fn := c.NeedFunc(pkgCore, name)
 		if fn == nil {
 			continue
 		}
-		n := 0
-		an.Instrs(fn, func(in ssa.Instruction) {
+		nilUpdate := func(in ssa.Instruction) bool {
 			mu, ok := in.(*ssa.MapUpdate)
-			if !ok || !an.IsNil(an.Strip(mu.Key)) {
-				return
+			return ok && an.IsNil(an.Strip(mu.Key))
+		}
+		// where the registration lives: the entry point itself or a Fork method it calls (depth 2)
+		hosts := []*ssa.Function{fn}
+		seenH := map[*ssa.Function]bool{fn: true}
+		for i := 0; i < len(hosts) && i < 8; i++ {
+			an.Instrs(hosts[i], func(in ssa.Instruction) {
+				if cl := an.AsCallAny(in); cl != nil {
+					if g := cl.Common().StaticCallee(); g != nil && g.Blocks != nil && g.Pkg == fn.Pkg && !seenH[g] && g.Signature.Recv() != nil && strings.Contains(g.Signature.Recv().Type().String(), "core.Fork") {
+						seenH[g] = true
+						hosts = append(hosts, g)
+					}
+				}
+			})
+		}
+		decided := false
+		for _, h := range hosts {
+			has := false
+			an.Instrs(h, func(in ssa.Instruction) {
+				if nilUpdate(in) {
+					has = true
+				}
+			})
+			if !has {
+				continue
 			}
-			n++
-		})
-		stores := 0
-		an.Instrs(fn, func(in ssa.Instruction) {
-			if mu, ok := in.(*ssa.MapUpdate); ok && an.LoadsField(mu.Map, fileArgs) {
-				stores++
+			decided = true
+			if h != fn {
+				// a helper called per fork: every path through it registers the nil consumer
+				w := an.Query{Fn: h, Target: an.IsReturn, Barrier: nilUpdate}.Find()
+				c.Check("V5", "retain-registers-nil-consumer@"+name, fn.Pos(), w == nil,
+					"a retained output must be registered with the nil consumer for every fork on every path - also when the argument already has consumers, otherwise the file is reclaimed as soon as the last of them completes; helper "+an.FnName(h)+": "+c.WitnessString(w))
+				continue
 			}
-		})
-		c.Check("V5", "retain-registers-nil-consumer@"+name, fn.Pos(), n >= 2 && stores >= 1,
-			fmt.Sprintf("a retained output must be registered in fileArgs with the nil consumer (nil-key map updates: %d, fileArgs updates: %d)", n, stores))
+			// in the entry point: every iteration of the innermost loop that registers does so on every path
+			ok, why := true, ""
+			for hd, body := range naturalLoops(h) {
+				inner := false
+				for b := range body {
+					for _, in := range b.Instrs {
+						if nilUpdate(in) {
+							inner = true
+						}
+					}
+				}
+				if !inner {
+					continue
+				}
+				// innermost: no other registering loop strictly inside
+				innermost := true
+				for hd2, body2 := range naturalLoops(h) {
+					if hd2 == hd || !body[hd2] {
+						continue
+					}
+					for b := range body2 {
+						for _, in := range b.Instrs {
+							if nilUpdate(in) {
+								innermost = false
+							}
+						}
+					}
+				}
+				if !innermost {
+					continue
+				}
+				first := hd.Instrs[0]
+				w := an.Query{Fn: h, After: first, Target: func(in ssa.Instruction) bool { return in == first }, Barrier: nilUpdate,
+					BarrierEdge: func(from, to *ssa.BasicBlock) bool { return !body[to] }}.Find()
+				if w != nil {
+					ok, why = false, c.WitnessString(w)
+				}
+			}
+			c.Check("V5", "retain-registers-nil-consumer@"+name, fn.Pos(), ok,
+				"a retained output must be registered with the nil consumer for every fork on every path - also when the argument already has consumers, otherwise the file is reclaimed as soon as the last of them completes; "+why)
+		}
+		if !decided {
+			c.Fail("V5", "retain-registers-nil-consumer@"+name, fn.Pos(), "no insertion of the nil consumer found in the function or in the Fork methods it calls")
+		}
 	}
 	// (d) cloneFork copies both maps, including the nested per-entry maps
 	clone := c.NeedFunc(pkgCore, "cloneFork")
